@@ -435,96 +435,6 @@ Proof.
     rewrite (rm_notin _ _ Hn). split; [exact Hl|]. split; [exact Hdom|]. split; reflexivity.
 Qed.
 
-(* ------------------------------------------------------------------ the invariant and what it implies *)
-Section Inv.
-  Variable kids : N -> list N.
-  Variable ext : N -> list N.      (* storage roots embedded in the account leaves of a node *)
-  Variable nsize : N -> N.
-
-  Definition ondisk (st : db) (h : N) : Prop := mget h (disk st) <> None.
-  Definition cached (st : db) (h : N) : Prop := getd st h <> None.
-
-  Definition tracked (st : db) (h : N) : list N :=
-    match getd st h with Some e => e_ext e ++ kids h | None => [] end.
-
-  (* occurrences of x among the tracked children of the cached nodes *)
-  Fixpoint occ (st : db) (fl : list N) (x : N) : nat :=
-    match fl with [] => 0%nat | p :: r => (cnt x (tracked st p) + occ st r x)%nat end.
-
-  Fixpoint sumZ (f : N -> Z) (l : list N) : Z :=
-    match l with [] => 0%Z | x :: r => (f x + sumZ f r)%Z end.
-
-  Record Inv (fl : list N) (stamp u : N -> nat) (st : db) : Prop := mkInv {
-    i_linked : linked fl st;
-    i_dom : forall h, cached st h <-> In h fl;
-    i_sorted : StronglySorted (fun a b => (stamp a < stamp b)%nat) fl;
-    i_disk_closed : forall x c, ondisk st x -> In c (kids x ++ ext x) -> ondisk st c;
-    i_children : forall p c, In p fl -> In c (tracked st p) ->
-                 ondisk st c \/ (In c fl /\ (stamp c < stamp p)%nat);
-    i_ext : forall p e s, getd st p = Some e -> In s (ext p) -> ondisk st s \/ In s (e_ext e);
-    i_extsub : forall p e, getd st p = Some e -> NoDup (e_ext e) /\ incl (e_ext e) (ext p);
-    i_exact : forall x e, getd st x = Some e -> ~ ondisk st x ->
-              N.to_nat (e_parents e) = (occ st fl x + u x)%nat;
-    i_roots : forall r, (0 < u r)%nat -> In r fl \/ ondisk st r;
-    i_dsize : dsize st = sumZ (node_cost nsize) fl;
-    i_csize : csize st = sumZ (fun h => match getd st h with Some e => zlen (e_ext e) * hashLen | None => 0 end)%Z fl
-  }.
-
-  (* reachability in the node graph: trie children and account -> storage root edges *)
-  Inductive reach (r : N) : N -> Prop :=
-  | reach_refl : reach r r
-  | reach_step x c : reach r x -> In c (kids x ++ ext x) -> reach r c.
-
-  Lemma ondisk_reach st fl stamp u r x :
-    Inv fl stamp u st -> ondisk st r -> reach r x -> ondisk st x.
-  Proof. intros HI Hr Hx. induction Hx; auto. eapply i_disk_closed; eauto. Qed.
-
-  (* THE property, as a consequence of the invariant *)
-  Lemma inv_live_readable st fl stamp u r x :
-    Inv fl stamp u st -> (0 < u r)%nat -> reach r x -> cached st x \/ ondisk st x.
-  Proof.
-    intros HI Hu Hx. induction Hx as [|x c Hx IH Hc].
-    - destruct (i_roots _ _ _ _ HI r Hu); [left; apply (i_dom _ _ _ _ HI); auto|right; auto].
-    - destruct IH as [Hca|Hd]; [|right; eapply i_disk_closed; eauto].
-      assert (Hin := proj1 (i_dom _ _ _ _ HI x) Hca).
-      unfold cached in Hca. destruct (getd st x) as [e|] eqn:He; [|congruence].
-      assert (Ht : In c (tracked st x) \/ ondisk st c).
-      { apply in_app_or in Hc as [Hc|Hc].
-        - left. unfold tracked. rewrite He. apply in_or_app. auto.
-        - destruct (i_ext _ _ _ _ HI x e c He Hc); [right; auto|left].
-          unfold tracked. rewrite He. apply in_or_app. auto. }
-      destruct Ht as [Ht|Ht]; [|right; auto].
-      destruct (i_children _ _ _ _ HI x c Hin Ht) as [?|[Hcf _]]; [right; auto|left].
-      apply (i_dom _ _ _ _ HI). auto.
-  Qed.
-
-  (* reported memory usage matches the cached contents *)
-  Lemma inv_size_exact st fl stamp u cns :
-    Inv fl stamp u st ->
-    Size cns st = (sumZ (fun h => node_cost nsize h + cns +
-                     match getd st h with Some e => zlen (e_ext e) * hashLen | None => 0 end) fl)%Z.
-  Proof.
-    intros HI. unfold Size. rewrite (i_dsize _ _ _ _ HI), (i_csize _ _ _ _ HI).
-    assert (Hc : mcard (dirties st) = length fl).
-    { apply Nat.le_antisymm.
-      - unfold mcard. rewrite PositiveMap.cardinal_1.
-        rewrite <- (map_length fst), <- (map_length key fl).
-        apply NoDup_incl_length.
-        + assert (H := PositiveMap.elements_3w (dirties st)).
-          induction H as [|[k v] l Hn _ IH]; cbn; constructor; auto.
-          intros Hc. apply Hn. apply in_map_iff in Hc as ([k' v'] & Hk & Hin). cbn in Hk. subst k'.
-          apply SetoidList.InA_alt. exists (k, v'). split; [reflexivity|auto].
-        + intros k Hk. apply in_map_iff in Hk as ([k' v] & Hk' & Hin). cbn in Hk'. subst k'.
-          apply PositiveMap.elements_complete in Hin.
-          assert (Hkk : k = key (Pos.pred_N k)) by (symmetry; apply key_pred).
-          apply in_map_iff. exists (Pos.pred_N k). split; [auto|].
-          apply (i_dom _ _ _ _ HI). unfold cached, getd, mget. rewrite <- Hkk. congruence.
-      - apply mcard_ge; [apply (lk_nodup _ _ (i_linked _ _ _ _ HI))|].
-        intros h Hh. apply (i_dom _ _ _ _ HI) in Hh. exact Hh. }
-    rewrite Hc. clear. induction fl as [|x r IH]; cbn [sumZ length]; [lia|]. lia.
-  Qed.
-End Inv.
-
 (* ------------------------------------------------------------------ a history that defeats collection *)
 (* S = 1 (28 bytes), P = 2 (38 bytes, account leaf with storage root S).  P and S are committed;
    P is resubmitted while S is only on disk (reference skipped); S is resubmitted, now counted
